@@ -287,14 +287,15 @@ partial def pS : L → Option (SCond × L)
     if c ≠ 'A' ∧ c ≠ 'O' then none else
     let (g, r1) := untilAny [','] r
     let (p, r2) := untilAny [','] (r1.drop 1)
-    let (n, r3) := untilAny [')'] (r2.drop 1)
-    match gapOf g, gapOf p, r3 with
-    | some gap, some pgap, ')' :: '[' :: r4 =>
+    let (ng, r2') := untilAny [','] (r2.drop 1)
+    let (n, r3) := untilAny [')'] (r2'.drop 1)
+    match gapOf g, gapOf p, gapOf ng, r3 with
+    | some gap, some pgap, some ngap, ')' :: '[' :: r4 =>
       if gap.isEmpty || (n ≠ ['0'] ∧ n ≠ ['1']) then none else
       match pSs r4 with
-      | some (kids, r5) => some (.group (c = 'O') gap pgap (n = ['1']) kids, r5)
+      | some (kids, r5) => some (.group (c = 'O') gap pgap ngap (n = ['1']) kids, r5)
       | none => none
-    | _, _, _ => none
+    | _, _, _, _ => none
   | _ => none
 partial def pSs : L → Option (List SCond × L)
   | s => match pS s with
@@ -322,7 +323,7 @@ def parseSentence (f : List L) : Option Sentence :=
 
 partial def scondWords : SCond → List Tok
   | .clause _ _ _ _ v => match v with | some w => [w.text] | none => []
-  | .group _ _ _ _ kids => (kids.map scondWords).flatten
+  | .group _ _ _ _ _ kids => (kids.map scondWords).flatten
 
 /-! ### ops -/
 
